@@ -9,6 +9,7 @@ CONSTANTS
     Level = "quick"
     FixAssoc = FALSE
     FixTplLast = FALSE
+    FixRollback = FALSE
     Known = {}
 INVARIANTS
     CatalogueIsAccepted
